@@ -76,15 +76,16 @@ void SimBackend::MaybeThrow(const char* where) const {
 
 void SimBackend::InitCustomOptions() {
   set_option_header("SIMDRV Options for AMPL\n-----------------------\n");
-  AddStoredOption("tech:stropt stropt str_opt", "String option.", opts_.str_opt_);
-  AddStoredOption("tech:intopt intopt int_opt", "Int option.", opts_.int_opt_);
-  AddStoredOption("tech:dblopt dblopt dbl_opt", "Double option.", opts_.dbl_opt_);
+  AddStoredOption("tech:stropt stropt str_opt StrOptCamel", "String option.", opts_.str_opt_);   // synonyms registered in mixed case exist in real drivers (cbcmp: "mip:rens Rens")
+  AddStoredOption("tech:intopt intopt int_opt IntOptCamel", "Int option.", opts_.int_opt_);
+  AddStoredOption("tech:dblopt dblopt dbl_opt DBLOPT_up", "Double option.", opts_.dbl_opt_);
   AddStoredOption("tech:flagopt flagopt", "Flag option.", opts_.flag_opt_);
   AddListOption("tech:listopt listopt", "List option.", opts_.list_opt_);
   AddListOption("tech:strlistopt strlistopt", "String list option.", opts_.strlist_opt_);
   AddIntOption("wc:*:val wc_*_val", "Wildcard int option, one value per key.", &SimBackend::GetWC, &SimBackend::SetWC);
   AddOptionSynonyms_OutOfLine("ool_intopt", "tech:intopt");
   AddOptionSynonyms_OutOfLine("ool_stropt", "tech:stropt");
+  AddOptionSynonyms_OutOfLine("OOL_FlagOpt", "tech:flagopt");
   AddSolveResults({{mp::sol::FAILURE + 1, "fatal error 1"},
                    {mp::sol::LIMIT_FEAS_NEW + 1, "AI iteration limit, feasible solution"}});
 }
